@@ -319,7 +319,13 @@ def _tail(b, names):
                 var = 'DEM_' + NN(c, names, code) + '_' + NN(c, names, 'GOOD')
             if var not in gov.EquationBlock:
                 gov.AddVariable(var, 'Government demand', '0.0')
-            gov.SetExogenous(var, PATHS[c['G']])
+            if c.get('string_api'):
+                # the documented string form: Model.AddExogenous(<full sector code>, variable, path)
+                n_c = len(spec['countries']) + (1 if spec.get('ext') else 0) + (1 if spec.get('late_region') else 0)
+                gfull = gov.Code if n_c == 1 else gov.Parent.Code + '_' + gov.Code
+                m.AddExogenous(gfull, var, PATHS[c['G']])
+            else:
+                gov.SetExogenous(var, PATHS[c['G']])
         # residual supplier / imports
         if c['dep'] or c['gov'] in ('TRECB', 'GOLDCB'):
             dep = S[(code, 'DEP')]
